@@ -287,6 +287,55 @@ fn run_kind(kind: &str, cap: usize, call: &Call) -> Option<String> {
     }
 }
 
+/// `encseq <kind> <cap> <call>…`: the calls on ONE encoder over a bounded sink of `cap` bytes (filled with ee),
+/// carrying on after a failed call (the same op exists in harness/cfg for the six configurations).
+/// kinds: `slice`, `cslice`, `cbox`, `carr` (`Cursor<[u8; 12]>`, cap must be 12).
+/// Output: `<r1>,<r2>,… pos=<bytes accepted> buf=<hex of the whole sink>`, r = `ok` | `write` | `other`.
+pub fn run_encseq(w: &[&str]) -> String {
+    if w.len() < 2 { return "bad-op".into() }
+    let cap = match w[1].parse::<usize>() { Ok(c) if c <= 4096 => c, _ => return "bad-op".into() };
+    fn drive_all<W: Write>(e: &mut Encoder<W>, calls: &[&str]) -> Option<String> {
+        let mut rs = Vec::new();
+        for c in calls {
+            rs.push(match apply(e, c)? { Ok(()) => "ok", Err(x) => if x.is_write() { "write" } else { "other" } });
+        }
+        Some(if rs.is_empty() { "-".into() } else { rs.join(",") })
+    }
+    let mut m = guarded(cap);
+    let (rs, pos) = match w[0] {
+        "slice" => {
+            let mut e = Encoder::new(&mut m[G .. G + cap]);
+            let rs = drive_all(&mut e, &w[2..]);
+            let room = e.into_writer().len();
+            (rs, cap - room)
+        }
+        "cslice" => {
+            let mut e = Encoder::new(Cursor::new(&mut m[G .. G + cap]));
+            let rs = drive_all(&mut e, &w[2..]);
+            let p = e.writer().position();
+            (rs, p)
+        }
+        "cbox" => {
+            let mut e = Encoder::new(Cursor::new(vec![FILL; cap].into_boxed_slice()));
+            let rs = drive_all(&mut e, &w[2..]);
+            let p = e.writer().position();
+            m[G .. G + cap].copy_from_slice(&e.writer().get_ref()[..]);
+            (rs, p)
+        }
+        "carr" => {
+            if cap != 12 { return "bad-op".into() }
+            let mut e = Encoder::new(Cursor::new([FILL; 12]));
+            let rs = drive_all(&mut e, &w[2..]);
+            let p = e.writer().position();
+            m[G .. G + cap].copy_from_slice(&e.writer().get_ref()[..]);
+            (rs, p)
+        }
+        _ => return "bad-op".into()
+    };
+    if !canary_ok(&m, cap) { return "canary clobbered".into() }
+    match rs { Some(rs) => format!("{} pos={} buf={}", rs, pos, hex(&m[G .. G + cap])), None => "bad-op".into() }
+}
+
 pub fn run_raw(w: &[&str]) -> String {
     if w.len() < 2 { return "bad-op".into() }
     let cap = match w[1].parse::<usize>() { Ok(c) => c, Err(_) => return "bad-op".into() };
